@@ -30,8 +30,10 @@ type Solver struct {
 	// scoped caches (e.g. map tables defined with define-fun): key -> depth defined at
 	scoped map[interface{}]scopedEnt
 	// all assertions currently on the stack (for cross-checking with another solver)
-	PreHits int
-	LastErr string
+	PreHits   int
+	timeoutMs int
+	Hung      bool
+	LastErr   string
 }
 
 type nameKey struct {
@@ -63,7 +65,7 @@ func NewSolver(bin string, seed int, timeoutMs int, log io.Writer) (*Solver, err
 	if err := cmd.Start(); err != nil {
 		return nil, err
 	}
-	s := &Solver{bin: bin, cmd: cmd, inRaw: in, in: bufio.NewWriterSize(in, 1<<16), out: bufio.NewReaderSize(outp, 1<<20), log: log, facts: NewFacts(), scoped: map[interface{}]scopedEnt{}}
+	s := &Solver{timeoutMs: timeoutMs, bin: bin, cmd: cmd, inRaw: in, in: bufio.NewWriterSize(in, 1<<16), out: bufio.NewReaderSize(outp, 1<<20), log: log, facts: NewFacts(), scoped: map[interface{}]scopedEnt{}}
 	s.send("(set-option :produce-models true)")
 	if !isCvc {
 		s.send(fmt.Sprintf("(set-option :random-seed %d)", seed))
@@ -141,11 +143,28 @@ func (s *Solver) Name(t *Term) *Term {
 }
 
 func (s *Solver) readLine() string {
-	l, err := s.out.ReadString('\n')
-	if err != nil {
-		panic(execErr{"solver died: " + err.Error()})
+	type res struct {
+		l   string
+		err error
 	}
-	return strings.TrimSpace(l)
+	ch := make(chan res, 1)
+	go func() {
+		l, err := s.out.ReadString('\n')
+		ch <- res{l, err}
+	}()
+	limit := time.Duration(2*s.timeoutMs+10000) * time.Millisecond
+	select {
+	case r := <-ch:
+		if r.err != nil {
+			panic(execErr{"solver died: " + r.err.Error()})
+		}
+		return strings.TrimSpace(r.l)
+	case <-time.After(limit):
+		// the solver ignores its own time limit on this query: give up on this harness run
+		s.cmd.Process.Kill()
+		s.Hung = true
+		panic(execErr{fmt.Sprintf("solver did not answer within %s (its own limit is %d ms): run abandoned", limit, s.timeoutMs)})
+	}
 }
 
 // Check returns "sat", "unsat" or "unknown" for the current assertions plus extra.
@@ -352,6 +371,10 @@ func parseBV(v string) (uint64, bool) {
 }
 
 func (s *Solver) Close() {
+	if s.Hung {
+		s.cmd.Wait()
+		return
+	}
 	s.send("(exit)")
 	s.in.Flush()
 	s.inRaw.Close()
